@@ -179,13 +179,14 @@ impl Prop for C14 {
             f.push(Family::new(
                 "date-as-unix",
                 Mode::Full,
-                &format!("'<date> as unix' for {} dates (d/m/y and 'd Month y'): seconds from the epoch to midnight UTC of that date; printed digit for digit", dates.len()),
+                &format!("'<date> as unix' for {} dates (d/m/y and 'd Month y') under default zones UTC, CET, EST, GMT+5:30: seconds from the epoch to midnight UTC of that date whatever the default zone is; printed digit for digit", dates.len()),
                 move |ch| {
+                    let (tzset, _, _) = ch.pick(&zones()).clone();
                     let d = *ch.pick(&dates);
                     let named = ch.flag();
                     let text = if named { format!("{} {} {} as unix", d.2, month_names("en", d.1)[0], d.0) } else { format!("{}/{}/{} as unix", d.2, d.1, d.0) };
                     let want = cal::days_from_civil(d.0, d.1, d.2) * 86400;
-                    Some(LineCase::new(text, Expect::ValueOut(Val::Number(want as f64, Base::Raw), want.to_string(), 0.0), "date-as-unix"))
+                    Some(LineCase::new(text, Expect::ValueOut(Val::Number(want as f64, Base::Raw), want.to_string(), 0.0), "date-as-unix").with_cfg(cfg_tz(tzset)))
                 },
             ));
         }
